@@ -282,7 +282,10 @@ func (fr *Frame) execInstr(ins ssa.Instruction, pc string, st *State) string {
 		vc.stSet(st, card, fmt.Sprintf("(store %s %s 0)", vc.stGet(st, card), ref))
 		fr.vals[x] = []string{ref}
 	case *ssa.MakeChan:
-		fr.vals[x] = []string{fr.alloc(st)}
+		ref := fr.alloc(st)
+		d.chanCapDecl()
+		vc.stSet(st, "$chancap", fmt.Sprintf("(store %s %s %s)", vc.stGet(st, "$chancap"), ref, fr.v1(x.Size)))
+		fr.vals[x] = []string{ref}
 	case *ssa.MakeClosure:
 		ref := fr.alloc(st)
 		fr.vals[x] = []string{ref}
